@@ -48,6 +48,22 @@ CHECKS = {
                   "password-only nodes trust each other iff the derived public keys are equal. Determinism of ring's PBKDF2/Ed25519 itself is exercised "
                   "(derive twice, two instances), not proved.",
              technique="Coq proof (base-62 canonical-numeral argument) + executed correspondence; determinism of ring by run-twice", ref="4 (C18)"),
+ "C06": dict(text="Theorems C06_* (Properties/C06.v) about select_algorithm as written (own-list order, first match in the peer list, minimum of "
+                  "the two speeds, maximum with id tie-break): plain iff both allow it; clean failure iff not both plain and no common cipher; "
+                  "otherwise a common cipher whose slower side is fastest; both ends obtain the same result and the result is invariant under any "
+                  "permutation of either list (uniqueness of the maximum under a strict total order on duplicate-free lists); an edited list "
+                  "is an edited signed message and is dropped without touching the handshake. Tied to the code by real handshakes between "
+                  "PeerCrypto objects with prescribed speeds vs the extracted model (all 1024 list pairs x speed grid x both initiators).",
+             technique="Coq proof (order-independence of a maximum, list induction) + executed correspondence through real handshakes", ref="4 (C06)"),
+ "C07": dict(text="Theorem C07_send_key_held: for EVERY schedule (list of arbitrary length, by induction) of rotation cycles at either end, delivery "
+                  "of ANY rotation message ever sent (loss, duplication, reordering, delay), window ticks and payload sealing, starting right after any "
+                  "handshake, the key each end currently seals with is held by the peer under that key id with identical key material, and the "
+                  "agree_ephemeral unwrap is never hit. Proved through an explicit 16-clause shape invariant (largest message id n, whether its receiver "
+                  "has processed it, slot arithmetic mod 4, symmetric symbolic ECDH). Plus: duplicates ignored, lost message re-sent in the second "
+                  "following cycle, progress by one key id per delivered message, cycle exactly every 120th tick. Tied to the code by real "
+                  "PeerCrypto pairs run against the extracted model on exhaustive (depth 6/8) and random 100+-cycle schedules with a probe in both "
+                  "directions after every step.",
+             technique="Coq proof (inductive invariant over all schedules, symbolic ECDH) + executed correspondence with probes after every step", ref="4 (C07)"),
 }
 NA_REASON = "check not built yet in this revision of /verif (planned, see DESIGN.md section 4); not claimed"
 def main():
